@@ -1754,6 +1754,94 @@ def _module_names(tree):
 
 
 # ---------------------------------------------------------------------------------------------------------------------
+def struct_objects(trees, log=None):
+    """Package-wide: a precompiled `struct.Struct(F)` is the module functions with the format spelled out.
+       N = struct.Struct(F) (module level, bound once):  N.pack(..) -> struct.pack(F, ..); N.unpack(x) -> struct.unpack(F, x); N.size -> struct.calcsize(F)
+       self.X = struct.Struct(p) next to self.Y = p in one __init__ (X, Y assigned nowhere else): o.X.unpack(x) -> struct.unpack(o.Y, x), o.X.size -> struct.calcsize(o.Y)"""
+    log = log if log is not None else []
+
+    def is_struct_ctor(v):
+        return isinstance(v, ast.Call) and isinstance(v.func, ast.Attribute) and v.func.attr == "Struct" and isinstance(v.func.value, ast.Name) and v.func.value.id == "struct" and len(v.args) == 1 and not v.keywords
+
+    def imports_struct(t):
+        return any(isinstance(n, ast.Import) and any(a.name == "struct" and a.asname is None for a in n.names) for n in ast.walk(t))
+
+    def sfn(name):
+        return ast.Attribute(value=ast.Name(id="struct", ctx=ast.Load()), attr=name, ctx=ast.Load())
+    # attribute-level
+    attr_map = {}      # X -> Y
+    for t in trees.values():
+        for cls in [c for c in t.body if isinstance(c, ast.ClassDef)]:
+            for m in cls.body:
+                if isinstance(m, ast.FunctionDef) and m.name == "__init__" and m.args.args:
+                    selfn = m.args.args[0].arg
+                    stored = {}       # param name -> attr
+                    structs = {}      # attr X -> param name
+                    for st in m.body:
+                        if isinstance(st, ast.Assign) and len(st.targets) == 1 and isinstance(st.targets[0], ast.Attribute) and isinstance(st.targets[0].value, ast.Name) and st.targets[0].value.id == selfn:
+                            if isinstance(st.value, ast.Name):
+                                stored[st.value.id] = st.targets[0].attr
+                            elif is_struct_ctor(st.value) and isinstance(st.value.args[0], ast.Name):
+                                structs[st.targets[0].attr] = st.value.args[0].id
+                            elif is_struct_ctor(st.value) and isinstance(st.value.args[0], ast.Attribute) and isinstance(st.value.args[0].value, ast.Name) and st.value.args[0].value.id == selfn:
+                                structs[st.targets[0].attr] = ("attr", st.value.args[0].attr)
+                    for x, p in structs.items():
+                        y = p[1] if isinstance(p, tuple) else stored.get(p)
+                        if y:
+                            attr_map[x] = y
+    # X and Y assigned only once in the package
+    for x, y in list(attr_map.items()):
+        n_x = n_y = 0
+        for t in trees.values():
+            for n in ast.walk(t):
+                if isinstance(n, ast.Attribute) and isinstance(n.ctx, ast.Store):
+                    n_x += n.attr == x
+                    n_y += n.attr == y
+        if n_x != 1 or n_y != 1:
+            del attr_map[x]
+    for modname, t in trees.items():
+        has_struct = imports_struct(t)
+        mod_map = {}
+        counts = {}
+        for st in t.body:
+            if isinstance(st, ast.Assign) and len(st.targets) == 1 and isinstance(st.targets[0], ast.Name):
+                counts[st.targets[0].id] = counts.get(st.targets[0].id, 0) + 1
+                if is_struct_ctor(st.value):
+                    mod_map[st.targets[0].id] = st.value.args[0]
+        mod_map = {k: v for k, v in mod_map.items() if counts[k] == 1}
+        if not has_struct or not (mod_map or attr_map):
+            continue
+
+        def fmt_of(recv):
+            if isinstance(recv, ast.Name) and recv.id in mod_map:
+                return copy.deepcopy(mod_map[recv.id])
+            if isinstance(recv, ast.Attribute) and recv.attr in attr_map:
+                return ast.Attribute(value=copy.deepcopy(recv.value), attr=attr_map[recv.attr], ctx=ast.Load())
+            return None
+
+        class Tr(ast.NodeTransformer):
+            def visit_Call(self, n):
+                self.generic_visit(n)
+                if isinstance(n.func, ast.Attribute) and n.func.attr in ("pack", "unpack") and not n.keywords:
+                    f = fmt_of(n.func.value)
+                    if f is not None:
+                        log.append("STRUCT %s.%s" % (modname, n.func.attr))
+                        return ast.copy_location(ast.Call(func=sfn(n.func.attr), args=[f] + n.args, keywords=[]), n)
+                return n
+
+            def visit_Attribute(self, n):
+                self.generic_visit(n)
+                if n.attr == "size" and isinstance(n.ctx, ast.Load):
+                    f = fmt_of(n.value)
+                    if f is not None:
+                        return ast.copy_location(ast.Call(func=sfn("calcsize"), args=[f], keywords=[]), n)
+                return n
+        Tr().visit(t)
+        ast.fix_missing_locations(t)
+    return log
+
+
+# ---------------------------------------------------------------------------------------------------------------------
 def canonicalise(tree, modname, known, stats=None, log=None):
     """Rewrite `tree` (a parsed module) in place into canonical form; returns the statistics dict."""
     stats = stats if stats is not None else {}
